@@ -602,6 +602,110 @@ theorem components_accepted (c : Bytes) (h : Oid.checkContent c = true) :
         cases h3
     | cons s0 rest => exact ⟨s0, rest, rfl, hc⟩
 
+/-! ### outside the accepted contents the iterator panics (as the Rust does) -/
+
+theorem findEnd_spec (slice : Bytes) : ∀ (k j : Nat), Oid.findEnd slice k = some j →
+    ∃ i, j = k + i ∧ i < slice.length ∧
+      (slice.drop (i + 1) = [] → Oid.checkContent slice = true) ∧
+      (slice.drop (i + 1) ≠ [] → Oid.checkContent (slice.drop (i + 1)) = Oid.checkContent slice) := by
+  induction slice with
+  | nil => intro k j h; simp [Oid.findEnd] at h
+  | cons b rest ih =>
+    intro k j h
+    simp only [Oid.findEnd, byte_and80_eq0] at h
+    by_cases hb : b.toNat < 128
+    · simp only [hb, decide_true, if_true, Option.some.injEq] at h
+      refine ⟨0, by omega, by simp, ?_, ?_⟩
+      · intro hd
+        simp only [Nat.zero_add, List.drop_succ_cons, List.drop_zero] at hd
+        subst hd
+        have := checkContent_append_last [] b
+        rw [List.nil_append] at this
+        rw [this]; exact decide_eq_true hb
+      · intro hd
+        simp only [Nat.zero_add, List.drop_succ_cons, List.drop_zero] at hd ⊢
+        cases rest with
+        | nil => exact absurd rfl hd
+        | cons c t => exact (checkContent_cons_cons b c t).symm
+    · simp only [hb, decide_false, Bool.false_eq_true, if_false] at h
+      obtain ⟨i, h1, h2, h3, h4⟩ := ih (k + 1) j h
+      have hc : Oid.checkContent (b :: rest) = Oid.checkContent rest := by
+        cases rest with
+        | nil => simp at h2
+        | cons c t => exact checkContent_cons_cons b c t
+      refine ⟨i + 1, by omega, by simp; omega, ?_, ?_⟩
+      · intro hd; rw [hc]; exact h3 (by simpa using hd)
+      · intro hd; rw [hc]; simpa using h4 (by simpa using hd)
+
+theorem iterNext_none (slice : Bytes) (pos : Oid.Position) (hne : slice ≠ [])
+    (h : Oid.findEnd slice 0 = none) :
+    Oid.iterNext slice pos = .error (.panic "illegal object identifier (last octet has bit 8 set)") := by
+  unfold Oid.iterNext
+  have : slice.isEmpty = false := by cases slice with
+    | nil => exact absurd rfl hne
+    | cons _ _ => rfl
+  simp only [this, Bool.false_eq_true, if_false, h]
+
+theorem componentsAux_reject : ∀ (fuel : Nat) (slice : Bytes) (pos : Oid.Position), slice ≠ [] →
+    Oid.checkContent slice = false → slice.length + (if pos = .first then 1 else 0) < fuel →
+    ∃ site, Oid.componentsAux fuel slice pos = .error (.panic site) := by
+  intro fuel
+  induction fuel with
+  | zero => intro slice pos _ _ h; omega
+  | succ fuel ih =>
+    intro slice pos hne hc hf
+    cases hfe : Oid.findEnd slice 0 with
+    | none =>
+      refine ⟨"illegal object identifier (last octet has bit 8 set)", ?_⟩
+      simp only [Oid.componentsAux, iterNext_none slice pos hne hfe]
+      rfl
+    | some j =>
+      obtain ⟨i, h1, h2, h3, h4⟩ := findEnd_spec slice 0 j hfe
+      have hj : j = i := by omega
+      subst hj
+      have hd : slice.drop (j + 1) ≠ [] := by
+        intro e; rw [h3 e] at hc; cases hc
+      have hcd := h4 hd
+      rw [hc] at hcd
+      rw [componentsAux_step fuel slice pos j hne hfe]
+      cases pos with
+      | first =>
+        obtain ⟨site, hs⟩ := ih slice .second hne hc (by simp at hf ⊢; omega)
+        exact ⟨site, by simp only [show (Oid.Position.first != Oid.Position.first) = false from rfl,
+          Bool.false_eq_true, if_false, hs]; rfl⟩
+      | second =>
+        obtain ⟨site, hs⟩ := ih (slice.drop (j + 1)) .other hd hcd (by simp at hf ⊢; omega)
+        exact ⟨site, by simp only [show (Oid.Position.second != Oid.Position.first) = true from rfl,
+          if_true, hs]; rfl⟩
+      | other =>
+        obtain ⟨site, hs⟩ := ih (slice.drop (j + 1)) .other hd hcd (by simp at hf ⊢; omega)
+        exact ⟨site, by simp only [show (Oid.Position.other != Oid.Position.first) = true from rfl,
+          if_true, hs]; rfl⟩
+
+/-- on non-empty content that `check_content` rejects (which the constructors never produce) the
+    iterator panics, as `Iter::next` does in the Rust -/
+theorem components_reject (c : Bytes) (hne : c ≠ []) (h : Oid.checkContent c = false) :
+    ∃ site, Oid.components c = .error (.panic site) :=
+  componentsAux_reject (c.length + 2) c .first hne h (by simp)
+
+/-- the iterator runs to completion exactly on the empty and on the accepted contents -/
+theorem components_ok_iff (c : Bytes) :
+    (∃ l, Oid.components c = .ok l) ↔ (c = [] ∨ Oid.checkContent c = true) := by
+  constructor
+  · rintro ⟨l, hl⟩
+    by_cases hne : c = []
+    · exact Or.inl hne
+    · right
+      cases hc : Oid.checkContent c with
+      | true => rfl
+      | false =>
+        obtain ⟨site, hs⟩ := components_reject c hne hc
+        rw [hs] at hl; cases hl
+  · rintro (h | h)
+    · subst h; exact ⟨[], rfl⟩
+    · obtain ⟨s0, rest, _, hc⟩ := components_accepted c h
+      exact ⟨_, hc⟩
+
 /-! ### `Component::to_u32` -/
 
 /-- the loop body of `to_u32` (u32 arithmetic) -/
@@ -1366,5 +1470,69 @@ theorem fromStr_display_fromStr (s c : Bytes) (h : Oid.fromStr s = some c) :
   obtain ⟨a0, a1, rest, _, hv, hf, hc⟩ := fromStr_some s c h
   subst hc
   exact ⟨_, display_arcs a0 a1 rest hv hf, fromStr_dotted a0 a1 rest hv hf⟩
+
+/-! ## non-vacuity: concrete instances -/
+
+-- "1.2.840.113549"
+example : Oid.fromStr [0x31, 0x2E, 0x32, 0x2E, 0x38, 0x34, 0x30, 0x2E, 0x31, 0x31, 0x33, 0x35, 0x34, 0x39] =
+    some [0x2A, 0x86, 0x48, 0x86, 0xF7, 0x0D] := by decide
+-- "2.999"
+example : Oid.fromStr [0x32, 0x2E, 0x39, 0x39, 0x39] = some [0x88, 0x37] := by decide
+-- "3.1" is rejected (first arc > 2)
+example : Oid.fromStr [0x33, 0x2E, 0x31] = none := by decide
+-- "1.40" is rejected (second arc ≥ 40 under first arc 1)
+example : Oid.fromStr [0x31, 0x2E, 0x34, 0x30] = none := by decide
+-- "+1.2" is accepted: Rust's `u32::from_str` accepts a leading plus
+example : Oid.fromStr [0x2B, 0x31, 0x2E, 0x32] = some [0x2A] := by decide
+-- "", "1", "1..2", "1.2." are rejected
+example : Oid.fromStr [] = none := by decide
+example : Oid.fromStr [0x31] = none := by decide
+example : Oid.fromStr [0x31, 0x2E, 0x2E, 0x32] = none := by decide
+example : Oid.fromStr [0x31, 0x2E, 0x32, 0x2E] = none := by decide
+-- "2.4294967295" is rejected (40*2 + 4294967295 does not fit u32; the Rust before the fix panicked)
+example : Oid.fromStr [0x32, 0x2E, 0x34, 0x32, 0x39, 0x34, 0x39, 0x36, 0x37, 0x32, 0x39, 0x35] = none := by decide
+-- "1.2.4294967295" is accepted with a five-octet sub-identifier, "1.2.4294967296" is rejected
+example : Oid.fromStr [0x31, 0x2E, 0x32, 0x2E, 0x34, 0x32, 0x39, 0x34, 0x39, 0x36, 0x37, 0x32, 0x39, 0x35] =
+    some [0x2A, 0x8F, 0xFF, 0xFF, 0xFF, 0x7F] := by decide
+example : Oid.fromStr [0x31, 0x2E, 0x32, 0x2E, 0x34, 0x32, 0x39, 0x34, 0x39, 0x36, 0x37, 0x32, 0x39, 0x36] =
+    none := by decide
+
+-- the hypotheses of the arcs theorems hold for 1.2.840.113549 and for 2.999
+example : validHead 1 2 ∧ fits32 1 2 [840, 113549] := by
+  refine ⟨by unfold validHead; omega, by omega, ?_⟩
+  intro a ha; simp at ha; omega
+example : validHead 2 999 ∧ fits32 2 999 [] := by
+  refine ⟨by unfold validHead; omega, by omega, ?_⟩
+  intro a ha; cases ha
+example : arcsToContent [1, 2, 840, 113549] = [0x2A, 0x86, 0x48, 0x86, 0xF7, 0x0D] := by decide
+example : Spec.dotted [1, 2, 840, 113549] =
+    [0x31, 0x2E, 0x32, 0x2E, 0x38, 0x34, 0x30, 0x2E, 0x31, 0x31, 0x33, 0x35, 0x34, 0x39] := by decide
+example : Oid.display [0x2A, 0x86, 0x48, 0x86, 0xF7, 0x0D] =
+    .ok [0x31, 0x2E, 0x32, 0x2E, 0x38, 0x34, 0x30, 0x2E, 0x31, 0x31, 0x33, 0x35, 0x34, 0x39] := by
+  have h := display_arcs 1 2 [840, 113549] (by unfold validHead; omega)
+    ⟨by omega, by intro a ha; simp at ha; omega⟩
+  have e1 : arcsToContent [1, 2, 840, 113549] = [0x2A, 0x86, 0x48, 0x86, 0xF7, 0x0D] := by decide
+  have e2 : Spec.dotted [1, 2, 840, 113549] =
+    [0x31, 0x2E, 0x32, 0x2E, 0x38, 0x34, 0x30, 0x2E, 0x31, 0x31, 0x33, 0x35, 0x34, 0x39] := by decide
+  rw [e1, e2] at h; exact h
+-- the iterator on 1.2.840.113549
+example : Oid.components [0x2A, 0x86, 0x48, 0x86, 0xF7, 0x0D] =
+    .ok [(.first, [0x2A]), (.second, [0x2A]), (.other, [0x86, 0x48]), (.other, [0x86, 0xF7, 0x0D])] := by
+  have h := components_arcs 1 2 [840, 113549]
+  have e1 : arcsToContent [1, 2, 840, 113549] = [0x2A, 0x86, 0x48, 0x86, 0xF7, 0x0D] := by decide
+  have e2 : base128 (40 * 1 + 2) = [0x2A] ∧ base128 840 = [0x86, 0x48] ∧
+    base128 113549 = [0x86, 0xF7, 0x0D] := by decide
+  rw [e1, e2.1] at h
+  simp only [List.map_cons, List.map_nil, e2.2.1, e2.2.2] at h
+  exact h
+-- acceptance: the last octet decides
+example : Oid.checkContent [0x2A, 0x86, 0x48] = true ∧ Oid.checkContent [0x2A, 0x86] = false ∧
+    Oid.checkContent [] = false := by decide
+-- a minimal sub-identifier just above u32: "too large", not a wrong number
+example : base128 (2 ^ 32) = [0x90, 0x80, 0x80, 0x80, 0x00] ∧
+    Oid.toU32 .other [0x90, 0x80, 0x80, 0x80, 0x00] = none ∧
+    Oid.toU32 .other [0x8F, 0xFF, 0xFF, 0xFF, 0x7F] = some 4294967295 := by decide
+-- 2.999: the two leading arcs from the single sub-identifier 1079
+example : Oid.toU32 .first [0x88, 0x37] = some 2 ∧ Oid.toU32 .second [0x88, 0x37] = some 999 := by decide
 
 end Bcder.Props.C20
